@@ -6,6 +6,7 @@ mod mats;
 
 mod c01;
 mod c02;
+mod c03;
 mod c04;
 mod c05;
 mod c08;
@@ -72,6 +73,7 @@ fn main() {
     let code = match id.as_str() {
         "C01" => c01::run(&run),
         "C02" => c02::run(&run),
+        "C03" => c03::run(&run),
         "C04" => c04::run(&run),
         "C05" => c05::run(&run),
         "C08" => c08::run(&run),
